@@ -108,6 +108,10 @@ func mix(seed uint64, prop string, run int) uint64 {
 	return h ^ (h >> 29)
 }
 
+// ErrOut is the process's original standard error (a harness may redirect
+// os.Stderr to silence the code under test).
+var ErrOut = os.Stderr
+
 var scratchBase string
 
 // ScratchBase returns this worker's scratch directory.
@@ -134,7 +138,7 @@ func runOne(prop string, sc Scenario, tape *simrt.Tape, run int, trace bool, fla
 			if r := recover(); r != nil {
 				// A panic on the scheduler goroutine is a bug in the harness, never a finding.
 				simrt.Detach()
-				fmt.Fprintf(os.Stderr, "HARNESS PANIC prop=%s run=%d: %v\n%s\n", prop, run, r, debug.Stack())
+				fmt.Fprintf(ErrOut, "HARNESS PANIC prop=%s run=%d: %v\n%s\n", prop, run, r, debug.Stack())
 				os.Exit(3)
 			}
 		}()
